@@ -188,6 +188,40 @@ Theorem C09_prewrite_veto_writes_nothing : forall cli srv m,
 Proof. exact prewrite_veto_lemma. Qed.
 Print Assumptions C09_prewrite_veto_writes_nothing.
 
+(* Redial (session.Push / session.AsyncCall, label W): whatever the number n of
+   "write failed: connection closed, redial ok" retries and however the last attempt ends, the
+   pre-write stage runs exactly once for the message (the plan is [pre] or [pre; post]), no hook
+   fires twice, and the retries are invisible in the result. *)
+Theorem C09_prewrite_once_under_redial : forall pre post gc n final,
+  let r := send_flow false pre post gc n final in
+  (sd_plan r = [(pre, gc)] \/ sd_plan r = [(pre, gc); (post, gc)]) /\
+  (pre <> post -> NoDup (map p_name gc) -> NoDup (trace_of (sd_plan r))) /\
+  (sd_written r = true <-> vetoes pre gc = false /\ final = WOk).
+Proof. exact send_prewrite_once. Qed.
+Print Assumptions C09_prewrite_once_under_redial.
+
+Theorem C09_retries_invisible : forall pre post gc n final,
+  send_flow false pre post gc n final = send_flow false pre post gc 0 final.
+Proof. exact send_retries_invisible. Qed.
+Print Assumptions C09_retries_invisible.
+
+(* the sending side with retries is the sending side of [exchange] *)
+Theorem C09_send_matches_exchange : forall gc gs h n,
+  sd_plan (send_flow false PreWritePush PostWritePush gc n WOk) = r_cli (exchange_push gc gs h) /\
+  sd_status (send_flow false PreWritePush PostWritePush gc n WOk) = r_status (exchange_push gc gs h) /\
+  exists rest, r_cli (exchange_call gc gs h) =
+               sd_plan (send_flow false PreWriteCall PostWriteCall gc n WOk) ++ rest.
+Proof. exact send_matches_exchange. Qed.
+Print Assumptions C09_send_matches_exchange.
+
+(* the variant whose retry edge re-enters the pre-write stage fires a hook twice *)
+Theorem C09_prewrite_reenter_refuted :
+  exists gc n, NoDup (map p_name gc) /\
+    ~ NoDup (trace_of (sd_plan (send_flow true PreWritePush PostWritePush gc n WOk))) /\
+    ~ NoDup (trace_of (sd_plan (send_flow true PreWriteCall PostWriteCall gc n WOk))).
+Proof. exact send_reenter_refuted. Qed.
+Print Assumptions C09_prewrite_reenter_refuted.
+
 (* every chain of a reachable state has pairwise distinct plugin names *)
 Theorem C09_chains_distinct : forall ops st,
   run ops = Some st ->
